@@ -123,7 +123,7 @@ def known_findings(prop: str) -> List[Dict[str, Any]]:
         return []
     with open(fn) as f:
         data = json.load(f)
-    return [k for k in data.get('known', []) if k.get('property') == prop]
+    return [k for k in data.get('known', []) if k.get('property') == prop or prop in k.get('also', [])]
 
 
 # ---------------------------------------------------------------------------------------------
